@@ -111,6 +111,7 @@ class Engine:
         self.fresh = {}
         self.uf_axioms = []
         self.uf_pins = []
+        self.hash_used = False
         self.str_vars = set()
         self.solver.check()
         self.model = self.solver.model()
@@ -433,7 +434,12 @@ class SStr(str):
         return SBool(zs(o) <= self.z)
 
     def __hash__(self):
-        raise Unsupported("hash of symbolic str (dict/set keyed by client data)")
+        # A native dict/set keyed by client data: every symbolic string hashes alike, so the
+        # container falls back to == (decisions), which is exact among symbolic keys but would miss
+        # an equal *concrete* key.  The path is therefore marked: a counterexample found on it is
+        # still replayed on the real code (and believed only then), a pass is reported inconclusive.
+        E().hash_used = True
+        return 0x5EED
 
     def __bool__(self):
         return E().decide(self.z != 0)
